@@ -903,10 +903,11 @@ def inner_seqs(node, top=True):
 
 
 def in_model_scope(g):
-    """the flat leaf-map model has no nested CONTAINER objects: a non-in-place inner sequence hands the nested node of its
-    executing tensordict to its fresh output (base.py:update sets the node itself, D143), after which both alias; outside."""
-    uses_nested = any("." in k for l in leaves(g) for k in l["ins"] + l["outs"])
-    return not (uses_nested and any(s["inpl"] in (False, "empty") for s in inner_seqs(g)))
+    """every generated graph is inside the model.  (Before the repair of D143 a non-in-place inner sequence handed the nested
+    NODE of its executing tensordict to its fresh output -- base.py:update sets the node itself -- after which both aliased;
+    the flat leaf-map model has no container objects, so those cases were checked by the oracle only.  forward now copies
+    through select(), which builds fresh containers.)"""
+    return True
 
 
 def compare(kind, impl, model_results):
@@ -1026,11 +1027,7 @@ def classify(case, label, detail, sig):
         for s in all_seqs(g):
             if s["sel"] is not None and key in spec_written(s) and key not in s["sel"]:
                 return "sequence-select-writes-back-overwritten-inputs"         # D142
-    if label in ("footprint:wrote-non-out-key", "footprint:fresh-output-has-non-out-key") and key and "." in key:
-        if sig.get("sibling"):
-            before = sig.get("_dest_before") or []
-            if not any("." in k and first(k) == first(key) for k in before):
-                return "update-keys_to_update-copies-sibling-leaves"            # D143
+    # (sibling leaves of a nested out key copied by update(keys_to_update) were finding D143: repaired, PENDING-D143)
     return "none"
 
 
@@ -1137,6 +1134,8 @@ def main(R):
     run_cases(R, cases, ok)
     from . import c14_prob
     c14_prob.check(R, ok)
+    from . import c14_plumb
+    c14_plumb.check(R, ok)
 
 
 def replay(body):
@@ -1148,6 +1147,9 @@ def replay(body):
     if case.get("kind") == "prob":
         from . import c14_prob
         return c14_prob.replay(case)
+    if case.get("kind") == "plumb":
+        from . import c14_plumb
+        return c14_plumb.replay(case)
     o = process(case)
     print("oracle on the implementation:")
     for (label, detail, sig) in o["fails"]:
